@@ -322,7 +322,9 @@ def tool_programs(rd, cut, ws):
         add(44, drop_store(scan(t, {}, binds)))
     else:
         add(44, None)
-    # rewind: snapshot loop, restore loop, undo loop
+    # rewind: snapshot loop, restore loop, undo loop.  The restore loop's parent is "behind a file-system check" when the
+    # read of the stored copy succeeded before it with no file-system call or re-binding of the target in between (the
+    # sha256 comparison of fix 138f7db sits there: pure, it can only return an error)
     b = fn_body(ws, "rewind_to_checkpoint")
     if b:
         t = squash(b)
@@ -333,7 +335,7 @@ def tool_programs(rd, cut, ws):
             (r"let(?P<v>checkpoint_root)=self\.checkpoints_dir\.join\(", lambda env, m, before: 5),
             (r"let(?P<v>metadata_path)=checkpoint_root\.join\(\"checkpoint\.json\"\);", lambda env, m, before: 5),
             (r"let(?P<v>source_path)=checkpoint_root\.join\(\"files\"\)\.join\(&file\.path\);", lambda env, m, before: 5),
-            (r"ifletSome\((?P<v>parent)\)=(?P<b>target_path)\.parent\(\)", parent_of(12, r"letbytes=fs::read\(&source_path\)\?;$")),
+            (r"ifletSome\((?P<v>parent)\)=(?P<b>target_path)\.parent\(\)", parent_of(12, r"letbytes=fs::read\(&source_path\)\?;(?:(?!fs::|File::|OpenOptions|target_path=|\}else).)*$")),
             (r"ifletSome\((?P<v>parent)\)=(?P<b>path)\.parent\(\)", parent_of(12, r"Some\(bytes\)=>\{$")),
         ]
         add(45, drop_store(scan(t, {}, binds)))
